@@ -131,3 +131,26 @@ pub fn tcp_source(len: usize, cap: usize, calls: usize, segs: &[usize], drain_ma
     witness!("reassembly checked");
     std::mem::forget((src, rx, out));
 }
+
+/// (b) AuDecode on a complete .au stream (28-byte header, mono PCM16) delivered at once:
+/// exactly the PCM16 samples of the data section come out - no extra, no missing samples.
+pub fn au_decode_stream(nd: usize) {
+    let mut input: Vec<u8> = Vec::with_capacity(48);
+    for b in [0x2eu8, 0x73, 0x6e, 0x64, 0, 0, 0, 28, 0xff, 0xff, 0xff, 0xff, 0, 0, 0, 3, 0, 0, 0x1f, 0x40, 0, 0, 0, 1, 0, 0, 0, 0] {
+        input.push(b);
+    }
+    for _ in 0..nd {
+        input.push(any::<u8>());
+    }
+    let mk = |src: rustradio::stream::ReadStream<u8>| rustradio::au::AuDecode::new(src, 8000);
+    let mut r = Rig11::new(40, 16, &mk);
+    r.flush(&input, &[], 7);
+    assert!(r.next == input.len(), "BOUND: not all input taken");
+    assert!(r.out.data.len() == nd / 2, "decoded sample count differs from the PCM data in the stream (header bytes decoded as samples?)");
+    for i in 0..(nd / 2) {
+        let e = (i16::from_be_bytes([input[28 + 2 * i], input[28 + 2 * i + 1]]) as f32) / 32767.0;
+        assert!(r.out.data[i].bits_eq(&e), "decoded sample differs from big-endian PCM16 / 32767");
+    }
+    witness!("stream decoded");
+    std::mem::forget((r, input));
+}
